@@ -776,6 +776,10 @@ func checkC09(tier string, seed int64) int {
 		reports, total := racelog.Parse(prefix + "." + fmt.Sprint(os.Getpid()))
 		races = total
 		for _, r := range reports {
+			if r.HarnessOnly {
+				fmt.Printf("HARNESS-RACE (monitor defect, not a verdict about gohlslib): %s\n", r.Key)
+				continue
+			}
 			path := ev.Root + "/replays/C09/race-" + strings.NewReplacer("/", "_", "|", "--", "*", "", "(", "", ")", "").Replace(r.Key) + ".txt"
 			os.WriteFile(path, []byte(r.First), 0o644)
 			rep.Report("C09/race/"+r.Key, fmt.Sprintf("data race (%d reports) between %s; report in %s", r.Count, r.Key, path), map[string]any{"property": "C09", "race_report": path})
